@@ -10,7 +10,6 @@ engine runs.  The oracle is the independent walker ``oracles/examples_walker.py`
 
 from __future__ import annotations
 
-import copy
 import json
 from typing import Any
 from urllib.parse import parse_qsl
@@ -42,6 +41,10 @@ BOUNDS = {
 BUDGET_S = {"quick": 140, "thorough": 3000}
 CHUNK = 4
 ASSUMPTIONS = [
+    "fill-in nondeterminism is owned through the E1 seam: schemathesis.generation.hypothesis.examples.generate_one (used by add_examples and by "
+    "_generate_single_example for required properties) is replaced by an enumerator over the real strategy's choice tree; candidate 0 = first "
+    "valid execution in depth-first order (all-default answers when valid), candidates 1.. = the other distinct values with <=1 deviation; "
+    "Hypothesis' own search (and its derandomize setting) plays no role in this check",
     "parameters are default-style primitives (integer / string); arrays and objects in query/header/path/cookie (style decoding) are C06's subject",
     "body media types: application/json, application/vnd.v+json, application/x-www-form-urlencoded (objects of primitives), text/plain (strings)",
     "fill-in draws (generate_one) are enumerated over the stated character alphabet with at most one non-default answer per engine run; "
